@@ -223,12 +223,13 @@ def print_assumptions(prop_file):
     return True, res, out
 
 
-def coqchk(prop_file, timeout=2400):
-    """Independent re-check (coqchk) of the compiled property file and everything it depends on.
-    Returns (ok, summary dict, raw tail)."""
-    mod = "PF." + os.path.splitext(prop_file)[0].replace("theories/", "", 1).replace("/", ".")
+def coqchk(prop_file, timeout=2400, modules=None):
+    """Independent re-check (coqchk) of the compiled property file and everything it depends on (or, when the plugin
+    names them, of the listed modules and everything THEY depend on). Returns (ok, summary dict, raw tail)."""
+    mods = list(modules) if modules else [
+        "PF." + os.path.splitext(prop_file)[0].replace("theories/", "", 1).replace("/", ".")]
     rc, out = sh(["coqchk", "-silent", "-o", "-R", os.path.join(COQ, "theories"), "PF",
-                  "-R", os.path.join(COQ, "gen"), "PFGen", mod], cwd=COQ, timeout=timeout)
+                  "-R", os.path.join(COQ, "gen"), "PFGen"] + mods, cwd=COQ, timeout=timeout)
     summ = {}
     m = re.search(r"CONTEXT SUMMARY\s*=+\s*(.*)", out, re.S)
     if m:
@@ -454,8 +455,12 @@ def standard_check(cfg, argv):
 
     chk = None
     if proofs_ok and tier == "thorough" and not replay and not os.environ.get("VERIF_NO_COQCHK"):
-        c_ok, c_sum, c_raw = coqchk(cfg["prop_file"], timeout=int(cfg.get("coqchk_timeout", 2400)))
+        c_ok, c_sum, c_raw = coqchk(cfg["prop_file"], timeout=int(cfg.get("coqchk_timeout", 2400)),
+                                    modules=cfg.get("coqchk_modules"))
         chk = {"ok": c_ok, "summary": c_sum}
+        if cfg.get("coqchk_modules"):
+            chk["modules"] = list(cfg["coqchk_modules"])
+            chk["note"] = cfg.get("coqchk_note", "")
         if not c_ok and "[timeout after" in c_raw and "rror" not in c_raw:
             # the independent re-check did not finish in its time budget: that is not a rejection. coqc (the kernel)
             # accepted every file; the evidence says plainly that coqchk did not complete for this property.
@@ -578,7 +583,7 @@ def standard_check(cfg, argv):
     if chk is not None:
         rep.cov["coqchk"] = chk
         rep.cov["trusted_base"].append("coqchk -silent -o (independent checker) on %s: %s; axioms: %s" % (
-            cfg["prop_file"], "accepted" if chk["ok"] else ("DID NOT FINISH in its time budget" if chk["ok"] is None else "REJECTED"),
+            (", ".join(cfg["coqchk_modules"]) + " [" + cfg.get("coqchk_note", "") + "]") if cfg.get("coqchk_modules") else cfg["prop_file"], "accepted" if chk["ok"] else ("DID NOT FINISH in its time budget" if chk["ok"] is None else "REJECTED"),
             chk["summary"].get("Axioms", "?")))
     return rep.finish()
 
